@@ -47,9 +47,31 @@ type site struct {
 	hash, cls         string
 	feats             []string
 	line              int
+	// for the deep pass
+	rs   *ast.RangeStmt
+	decl *ast.FuncDecl
+	pk   *lpkg
 }
 
-type sortedRange struct{ file, fn, expr string }
+type sortedRange struct {
+	file, fn, expr string
+	// for the deep pass (nil for loose iterators)
+	rs   *ast.RangeStmt
+	decl *ast.FuncDecl
+	pk   *lpkg
+}
+
+// lpkg is one type-checked package of the module.
+type lpkg struct {
+	rel   string // "cisco", "cmd/drc"
+	path  string // import path
+	files []*ast.File
+	names []string
+	info  *types.Info
+	pkg   *types.Package
+}
+
+const modPath = "github.com/hknutzen/Netspoc-Approve/go"
 
 var problems []string
 
@@ -58,6 +80,7 @@ func problem(format string, a ...any) { problems = append(problems, fmt.Sprintf(
 func main() {
 	repo := flag.String("repo", "/repo", "repository root")
 	out := flag.String("out", "", "Lean file to write (default stdout)")
+	deepOut := flag.String("deep", "", "second Lean file: transitive effects, sorted loops, third-party sites, other sources of nondeterminism")
 	flag.Parse()
 	root := filepath.Join(*repo, "go")
 	if err := os.Chdir(root); err != nil {
@@ -66,6 +89,10 @@ func main() {
 	}
 	dirs, _ := filepath.Glob(filepath.Join(root, "pkg", "*"))
 	sort.Strings(dirs)
+	cmdDirs, _ := filepath.Glob(filepath.Join(root, "cmd", "*"))
+	sort.Strings(cmdDirs)
+	dirs = append(dirs, cmdDirs...)
+	var pkgs []*lpkg
 	fset := token.NewFileSet()
 	imp := newImporter(fset)
 
@@ -81,6 +108,10 @@ func main() {
 			continue
 		}
 		pkgName := filepath.Base(dir)
+		relPkg := pkgName
+		if filepath.Base(filepath.Dir(dir)) == "cmd" {
+			relPkg = "cmd/" + pkgName
+		}
 		// No comments: the hash must not depend on them.
 		m, err := parser.ParseDir(fset, dir, func(fi os.FileInfo) bool {
 			n := fi.Name()
@@ -101,15 +132,22 @@ func main() {
 				files = append(files, p.Files[n])
 			}
 			info := &types.Info{
-				Types: map[ast.Expr]types.TypeAndValue{},
-				Uses:  map[*ast.Ident]types.Object{},
-				Defs:  map[*ast.Ident]types.Object{},
+				Types:      map[ast.Expr]types.TypeAndValue{},
+				Uses:       map[*ast.Ident]types.Object{},
+				Defs:       map[*ast.Ident]types.Object{},
+				Selections: map[*ast.SelectorExpr]*types.Selection{},
 			}
 			conf := types.Config{Importer: imp, Error: func(err error) { problem("type error: %v", err) }}
-			conf.Check("pkg/"+pkgName, fset, files, info)
+			ipath := modPath + "/pkg/" + pkgName
+			if relPkg != pkgName {
+				ipath = modPath + "/" + relPkg
+			}
+			tpkg, _ := conf.Check(ipath, fset, files, info)
+			pk := &lpkg{rel: relPkg, path: ipath, files: files, names: names, info: info, pkg: tpkg}
+			pkgs = append(pkgs, pk)
 			for i, f := range files {
-				rel := pkgName + "/" + filepath.Base(names[i])
-				w := &walker{fset: fset, info: info, file: rel, counts: map[string]int{}}
+				rel := relPkg + "/" + filepath.Base(names[i])
+				w := &walker{fset: fset, info: info, file: rel, counts: map[string]int{}, pk: pk}
 				w.walkFile(f)
 				sites = append(sites, w.sites...)
 				sorted = append(sorted, w.sorted...)
@@ -137,11 +175,18 @@ func main() {
 			problem("cannot read the literal defaultVals in program/config.go")
 		}
 	}
+	var deepText string
+	if *deepOut != "" {
+		deepText = deep(fset, imp, pkgs, sites, sorted)
+	}
 	if len(problems) > 0 {
 		for _, p := range problems {
 			fmt.Fprintln(os.Stderr, "mapranges:", p)
 		}
 		os.Exit(1)
+	}
+	if *deepOut != "" {
+		writeIfChanged(*deepOut, deepText)
 	}
 
 	var b strings.Builder
@@ -192,12 +237,16 @@ func main() {
 		fmt.Print(b.String())
 		return
 	}
-	os.MkdirAll(filepath.Dir(*out), 0755)
-	// Do not touch the file if nothing changed (keeps lake's cache valid).
-	if old, err := os.ReadFile(*out); err == nil && string(old) == b.String() {
+	writeIfChanged(*out, b.String())
+}
+
+// writeIfChanged does not touch the file if nothing changed (keeps lake's cache valid).
+func writeIfChanged(path, text string) {
+	os.MkdirAll(filepath.Dir(path), 0755)
+	if old, err := os.ReadFile(path); err == nil && string(old) == text {
 		return
 	}
-	if err := os.WriteFile(*out, []byte(b.String()), 0644); err != nil {
+	if err := os.WriteFile(path, []byte(text), 0644); err != nil {
 		fmt.Fprintln(os.Stderr, "mapranges:", err)
 		os.Exit(1)
 	}
@@ -218,7 +267,7 @@ func (f fallbackImporter) Import(path string) (*types.Package, error) {
 
 func newImporter(fset *token.FileSet) types.Importer {
 	src := importer.ForCompiler(fset, "source", nil)
-	out, err := exec.Command("go", "list", "-e", "-export", "-deps", "-f", "{{.ImportPath}} {{.Export}}", "./pkg/...").Output()
+	out, err := exec.Command("go", "list", "-e", "-export", "-deps", "-f", "{{.ImportPath}} {{.Export}}", "./pkg/...", "./cmd/...").Output()
 	if err != nil {
 		return src
 	}
@@ -272,6 +321,8 @@ type walker struct {
 	loose  []sortedRange
 	// label of the statement currently being entered (for labeled range statements)
 	wrapped map[*ast.CallExpr]bool
+	pk      *lpkg
+	decl    *ast.FuncDecl
 }
 
 func (w *walker) text(n ast.Node) string {
@@ -292,11 +343,13 @@ func (w *walker) walkFile(f *ast.File) {
 				name = strings.TrimPrefix(w.text(d.Recv.List[0].Type), "*") + "." + name
 			}
 			w.fnPath = []string{name}
+			w.decl = d
 			if d.Body != nil {
 				w.walkStmts(d.Body.List)
 			}
 		case *ast.GenDecl:
 			w.fnPath = []string{"<toplevel>"}
+			w.decl = nil
 			w.walkNode(d, nil)
 		}
 	}
@@ -435,7 +488,7 @@ func (w *walker) callExpr(c *ast.CallExpr) {
 		}
 	case "maps.Keys", "maps.Values", "maps.All":
 		if !w.wrapped[c] {
-			w.loose = append(w.loose, sortedRange{w.file, w.fn(), w.text(c)})
+			w.loose = append(w.loose, sortedRange{file: w.file, fn: w.fn(), expr: w.text(c)})
 		}
 	}
 }
@@ -446,7 +499,7 @@ func (w *walker) rangeStmt(rs *ast.RangeStmt, following []ast.Stmt, label string
 		switch selName(c.Fun) {
 		case "slices.Sorted", "slices.SortedFunc", "slices.SortedStableFunc":
 			if in, ok := c.Args[0].(*ast.CallExpr); ok && selName(in.Fun) == "maps.Keys" && len(in.Args) == 1 {
-				w.sorted = append(w.sorted, sortedRange{w.file, w.fn(), w.text(in.Args[0])})
+				w.sorted = append(w.sorted, sortedRange{file: w.file, fn: w.fn(), expr: w.text(in.Args[0]), rs: rs, decl: w.decl, pk: w.pk})
 			}
 		}
 	}
@@ -479,6 +532,7 @@ func (w *walker) rangeStmt(rs *ast.RangeStmt, following []ast.Stmt, label string
 		file: w.file, fn: w.fn(), mapExpr: mapExpr, ord: ord,
 		hash: hex.EncodeToString(h[:8]), cls: cls, feats: feats,
 		line: w.fset.Position(rs.Pos()).Line,
+		rs:   rs, decl: w.decl, pk: w.pk,
 	})
 }
 
